@@ -32,6 +32,7 @@ type Program struct {
 	StubPkgs      map[string]bool
 	Params        map[string]int
 	RepoPrefix    string
+	RepoDir       string
 
 	mu          sync.Mutex
 	methodCache typeutil.Map // types.Type -> map[string]*ssa.Function
@@ -65,7 +66,7 @@ func Load(dir string, overlay map[string][]byte, patterns ...string) (*Program, 
 	prog, _ := ssautil.AllPackages(pkgs, ssa.InstantiateGenerics)
 	prog.Build()
 	p := &Program{Prog: prog, Pkgs: pkgs, Fset: prog.Fset, MaxConcretize: 300, MaxAlloc: 1 << 20, MaxSymLen: 3,
-		implCache: map[[2]types.Type]bool{}, RepoPrefix: "github.com/gopcua/opcua"}
+		implCache: map[[2]types.Type]bool{}, RepoPrefix: "github.com/gopcua/opcua", RepoDir: dir}
 	p.InitPkgs = map[string]bool{}
 	p.StubPkgs = map[string]bool{"github.com/gopcua/opcua/stats": true, "expvar": true, "log": true}
 	for _, s := range []string{"errors", "io", "strconv", "unicode/utf8", "encoding/binary", "encoding/base64", "encoding/hex",
